@@ -551,6 +551,19 @@ func (env *Env) evalCall(x *ECall) Term {
 			return env.fail("boundto: no registered targets for %s", f.T)
 		}
 		return fv.boundTo(f, p, targets)
+	case "linestr":
+		// linestr(s, n): the string s starts with "line <n>: "
+		a, b := env.Eval(x.Args[0]), env.Eval(x.Args[1])
+		fv.decls.Add(1, "pv_lineStr", "(declare-fun pv_lineStr (pv_Str pv_Val) Bool)")
+		return Term{S: fmt.Sprintf("(pv_lineStr %s %s)", a.S, b.S), Sort: SBool}
+	case "linemsg":
+		a, b := env.Eval(x.Args[0]), env.Eval(x.Args[1])
+		fv.decls.Add(1, "pv_lineMsg", "(declare-fun pv_lineMsg (pv_Val pv_Val) Bool)")
+		return Term{S: fmt.Sprintf("(pv_lineMsg %s %s)", a.S, b.S), Sort: SBool}
+	case "lineprefixed":
+		a := env.Eval(x.Args[0])
+		fv.decls.Add(1, "pv_linePrefixed", "(declare-fun pv_linePrefixed (pv_Str) Bool)")
+		return Term{S: fmt.Sprintf("(pv_linePrefixed %s)", a.S), Sort: SBool}
 	case "trusted":
 		a := env.Eval(x.Args[0])
 		fv.decls.Add(1, "pv_trusted", "(declare-fun pv_trusted (pv_Str) Bool)\n(assert (pv_trusted pv_empty))")
